@@ -25,8 +25,13 @@ import (
 )
 
 type WarmUpTrafficShapingCalculator struct {
-	owner             *TrafficShapingController
-	threshold         float64
+	owner     *TrafficShapingController
+	threshold float64
+	// The rule's threshold counts tokens per statistic interval, so the token bucket below (the
+	// classic one, which works per second) uses the interval as its unit of time: it is synchronised
+	// once per interval, refilled by the threshold per interval and drained by the tokens that
+	// passed in the previous interval. With the default interval of one second nothing changes.
+	intervalInMs      uint64
 	warmUpPeriodInSec uint32
 	coldFactor        uint32
 	warningToken      uint64
@@ -49,9 +54,16 @@ func NewWarmUpTrafficShapingCalculator(owner *TrafficShapingController, rule *Ru
 		logging.Warn("[NewWarmUpTrafficShapingCalculator] No set WarmUpColdFactor,use default warm up cold factor value", "defaultWarmUpColdFactor", config.DefaultWarmUpColdFactor)
 	}
 
-	warningToken := uint64((float64(rule.WarmUpPeriodSec) * rule.Threshold) / float64(coldFactor-1))
+	intervalInMs := uint64(1000)
+	if rule.StatIntervalInMs > 0 {
+		intervalInMs = uint64(rule.StatIntervalInMs)
+	}
+	// the warm-up period in intervals
+	period := float64(rule.WarmUpPeriodSec) * 1000.0 / float64(intervalInMs)
 
-	maxToken := warningToken + uint64(2*float64(rule.WarmUpPeriodSec)*rule.Threshold/float64(1.0+coldFactor))
+	warningToken := uint64((period * rule.Threshold) / float64(coldFactor-1))
+
+	maxToken := warningToken + uint64(2*period*rule.Threshold/float64(1.0+coldFactor))
 	if maxToken <= warningToken {
 		// A small threshold x period with a large cold factor truncates the room above the warning line
 		// to nothing, and a bucket that cannot rise above the line never makes the rule cold: it
@@ -63,6 +75,7 @@ func NewWarmUpTrafficShapingCalculator(owner *TrafficShapingController, rule *Ru
 
 	warmUpTrafficShapingCalculator := &WarmUpTrafficShapingCalculator{
 		owner:             owner,
+		intervalInMs:      intervalInMs,
 		warmUpPeriodInSec: rule.WarmUpPeriodSec,
 		coldFactor:        coldFactor,
 		warningToken:      warningToken,
@@ -79,7 +92,8 @@ func NewWarmUpTrafficShapingCalculator(owner *TrafficShapingController, rule *Ru
 func (c *WarmUpTrafficShapingCalculator) CalculateAllowedTokens(_ uint32, _ int32) float64 {
 	metricReadonlyStat := c.BoundOwner().boundStat.readOnlyMetric
 	previousQps := metricReadonlyStat.GetPreviousQPS(base.MetricEventPass)
-	c.syncToken(previousQps)
+	// the tokens that passed in the previous interval
+	c.syncToken(previousQps * float64(c.intervalInMs) / 1000.0)
 
 	restToken := atomic.LoadInt64(&c.storedTokens)
 	if restToken < 0 {
@@ -108,7 +122,7 @@ func (c *WarmUpTrafficShapingCalculator) CalculateAllowedTokens(_ uint32, _ int3
 
 func (c *WarmUpTrafficShapingCalculator) syncToken(passQps float64) {
 	currentTime := util.CurrentTimeMillis()
-	currentTime = currentTime - currentTime%1000
+	currentTime = currentTime - currentTime%c.intervalInMs
 
 	oldLastFillTime := atomic.LoadUint64(&c.lastFilledTime)
 	if currentTime <= oldLastFillTime {
@@ -135,7 +149,7 @@ func (c *WarmUpTrafficShapingCalculator) coolDownTokens(currentTime uint64, pass
 	// at or below the warning line the bucket refills at the full rate (with a strict comparison a
 	// bucket standing exactly on the line never cooled down again, however long the resource was idle)
 	if oldValue <= int64(c.warningToken) {
-		newValue = int64(float64(oldValue) + (float64(currentTime)-float64(atomic.LoadUint64(&c.lastFilledTime)))*c.threshold/1000.0)
+		newValue = int64(float64(oldValue) + (float64(currentTime)-float64(atomic.LoadUint64(&c.lastFilledTime)))*c.threshold/float64(c.intervalInMs))
 	} else if oldValue > int64(c.warningToken) {
 		// the low-traffic bound is the integer quotient threshold/coldFactor; when the threshold is
 		// smaller than the cold factor that quotient is 0 and no traffic, however low, is "below" it:
@@ -145,7 +159,7 @@ func (c *WarmUpTrafficShapingCalculator) coolDownTokens(currentTime uint64, pass
 			lowTraffic = 1
 		}
 		if passQps < float64(lowTraffic) {
-			newValue = int64(float64(oldValue) + float64(currentTime-atomic.LoadUint64(&c.lastFilledTime))*c.threshold/1000.0)
+			newValue = int64(float64(oldValue) + float64(currentTime-atomic.LoadUint64(&c.lastFilledTime))*c.threshold/float64(c.intervalInMs))
 		}
 	}
 
